@@ -913,7 +913,7 @@ func c20Run(c c20Case, dir string) (c20Obs, string, string) {
 	}
 
 	file := ""
-	fileCoq := "None"
+	fileCoq := "None None"
 
 	if c.HasFile {
 		var sb strings.Builder
@@ -932,6 +932,13 @@ func c20Run(c c20Case, dir string) (c20Obs, string, string) {
 		}
 
 		fileCoq = "(Some " + c20CoqTop(k.Raw(), nil) + ")"
+
+		// ... and as the generator meant it: built from the logical leaves, scalars typed by the YAML library
+		if logical, ok := c20BuildOf(c.File, c20Typed).goValue().(map[string]any); ok {
+			fileCoq += " (Some " + c20CoqTop(logical, nil) + ")"
+		} else {
+			fileCoq += " None"
+		}
 	}
 
 	set := map[string]bool{}
